@@ -11,11 +11,15 @@ import (
 	"runtime"
 	"sort"
 	"strconv"
+	"strings"
 	"sync"
 	"sync/atomic"
 	"testing/synctest"
 	"time"
 )
+
+// FineGrainedBuild is true when the binary was built against an instrumented copy of hc.
+var FineGrainedBuild bool
 
 // Progress is bumped at every scheduler step; a real-time watchdog outside the
 // bubble reads it.
@@ -36,6 +40,9 @@ type Parked struct {
 	ch      chan struct{}
 	seq     uint64
 	Info    string
+	// StallUntil > 0: a stalled goroutine (fault kind "stall"): it is not released before that
+	// step unless nothing else can run
+	StallUntil int
 }
 
 func (p *Parked) key() string {
@@ -72,10 +79,10 @@ type Sim struct {
 	MaxSteps int
 	// BudgetExhausted is set when Run stopped because of MaxSteps (the run is inconclusive).
 	BudgetExhausted bool
-	Log      []string
-	KeepLog  bool
-	h        uint64
-	Stats    map[string]int
+	Log             []string
+	KeepLog         bool
+	h               uint64
+	Stats           map[string]int
 	// Panics of actor goroutines (application code calling into hc) outside teardown.
 	Panics []string
 
@@ -89,6 +96,14 @@ type Sim struct {
 	StepHook func(desc string)
 
 	nextPort int
+
+	// fine-grained mode: yield points inside hc are park points for a per-run subset of the sites
+	Fine      bool
+	SiteSalt  uint64
+	SiteMod   uint64
+	StallMod  uint64 // fine-grained mode: one in StallMod yield parks stalls the goroutine (0: never)
+	schedGoid int64
+	goConn    map[int64]int
 }
 
 // NewSim creates a simulation driven by the schedule vector.
@@ -106,8 +121,164 @@ func NewSim(sched []uint16) *Sim {
 	return s
 }
 
-// Activate installs s as the target of the process-wide hooks.
-func (s *Sim) Activate() { cur.Store(s) }
+// Activate installs s as the target of the process-wide hooks. It must be called on the
+// scheduler goroutine.
+func (s *Sim) Activate() {
+	s.schedGoid = goid()
+	cur.Store(s)
+}
+
+// yieldPoint is reached from the yield points inserted into hc (fine-grained mode only).
+func (s *Sim) yieldPoint(site int) {
+	if !s.Fine || s.inline.Load() {
+		return
+	}
+	mod := s.SiteMod
+	if mod == 0 {
+		mod = 8
+	}
+	if (uint64(site)*2654435761+s.SiteSalt)%mod != 0 {
+		return // this run uses another subset of the sites
+	}
+	id := goid()
+	if id == s.schedGoid {
+		return
+	}
+	s.mu.Lock()
+	conn, ok := s.goConn[id]
+	name := s.actors[id]
+	s.mu.Unlock()
+	if name == "transport" {
+		return // Transport.Start only sets the server up; the harness waits for it without scheduling
+	}
+	if !ok {
+		conn = -1
+	}
+	if why := unsafeToPark(); why != "" {
+		s.Count("fine.yield_skipped_lock_possibly_held")
+		if DebugYieldSkips != nil {
+			DebugYieldSkips(why)
+		}
+		return
+	}
+	s.Count("fine.yield_parks")
+	if s.StallMod > 0 {
+		// a slow goroutine: decided by the site, the step and the run's salt only, so that it replays
+		h := (uint64(site)*0x9E3779B97F4A7C15 ^ uint64(s.Steps)*0xC2B2AE3D27D4EB4F ^ s.SiteSalt) * 0xD6E8FEB86659FD93
+		h ^= h >> 29
+		if h%s.StallMod == 0 {
+			s.Count("fault.stalled_goroutine")
+			s.parkStalled("pt", s.ActorName(conn), conn, " s"+strconv.Itoa(site)+" stalled", s.Steps+8+int((h>>16)%150))
+			return
+		}
+	}
+	s.Park("pt", s.ActorName(conn), conn, " s"+strconv.Itoa(site), nil)
+}
+
+// LockUsers is set by the fine-grained build: functions of the tree under test that take a
+// lock the simulator has no probe for.
+var LockUsers map[string]bool
+
+// DebugYieldSkips, when set, is told which frame made a yield point decline to park.
+var DebugYieldSkips func(frame string)
+
+// Frames of other packages under which parking is known to be safe (no lock held while they
+// call into hc). Every other frame outside hc and the harness makes the yield point decline:
+// a goroutine parked while it holds a mutex the simulator cannot see would hang the run.
+var parkSafePrefixes = []string{
+	"github.com/brutella/hc", "verif/sim/", "runtime.", "testing.", "testing/synctest.", "pgregory.net/rapid",
+	"bufio.", "io.", "io/ioutil.", "net/textproto.", "encoding/json.", "bytes.", "fmt.", "strings.", "reflect.", "sort.",
+	"encoding/binary.", "encoding/hex.", "strconv.", "main.",
+}
+
+var parkSafeFuncs = map[string]bool{
+	"net/http.(*conn).serve": true, "net/http.serverHandler.ServeHTTP": true, "net/http.(*ServeMux).ServeHTTP": true,
+	"net/http.HandlerFunc.ServeHTTP": true, "net/http.(*conn).setState": true, "net/http.(*conn).readRequest": true,
+	"net/http.readRequest": true, "net/http.(*connReader).Read": true, "net/http.(*connReader).backgroundRead": true,
+	"net/http.checkConnErrorWriter.Write": true, "net/http.(*response).write": true, "net/http.(*response).Write": true,
+	"net/http.(*response).WriteHeader": true, "net/http.(*response).WriteString": true, "net/http.(*chunkWriter).Write": true,
+	"net/http.(*chunkWriter).writeHeader": true, "net/http.(*chunkWriter).flush": true, "net/http.(*chunkWriter).close": true,
+	"net/http.(*response).finishRequest": true, "net/http.(*response).Flush": true, "net/http.(*response).FlushError": true,
+	"net/http.(*conn).close": true, "net/http.(*conn).finalFlush": true, "net/http.(*Server).Serve": true,
+	"net/http.(*Request).ParseForm": true, "net/http.(*Request).FormValue": true,
+	"net/http/internal.(*chunkedWriter).Write": true, "net/http/internal.(*chunkedWriter).Close": true,
+	"net/http/internal.(*FlushAfterChunkWriter).Write": true,
+}
+
+func baseFunc(fn string) string {
+	// closures and method values: pkg.(*T).M.func1.2, pkg.F.gowrap1, pkg.(*T).M-fm
+	for {
+		i := strings.LastIndexByte(fn, '.')
+		if i < 0 {
+			break
+		}
+		suf := fn[i+1:]
+		if strings.HasPrefix(suf, "func") || strings.HasPrefix(suf, "gowrap") || strings.HasPrefix(suf, "deferwrap") || isDigits(suf) {
+			fn = fn[:i]
+			continue
+		}
+		break
+	}
+	return strings.TrimSuffix(fn, "-fm")
+}
+
+func isDigits(s string) bool {
+	if s == "" {
+		return false
+	}
+	for _, c := range s {
+		if c < '0' || c > '9' {
+			return false
+		}
+	}
+	return true
+}
+
+// unsafeToPark walks the stack of the calling goroutine and names the first frame under which a
+// lock unknown to the simulator may be held ("" when there is none).
+func unsafeToPark() string {
+	var pcs [96]uintptr
+	n := runtime.Callers(3, pcs[:])
+	frames := runtime.CallersFrames(pcs[:n])
+	for {
+		fr, more := frames.Next()
+		fn := baseFunc(fr.Function)
+		if fn != "" {
+			if LockUsers[fn] {
+				return fn
+			}
+			if !parkSafeFuncs[fn] {
+				ok := false
+				for _, p := range parkSafePrefixes {
+					if strings.HasPrefix(fn, p) {
+						ok = true
+						break
+					}
+				}
+				if !ok {
+					return fn
+				}
+			}
+		}
+		if !more {
+			return ""
+		}
+	}
+}
+
+// NoteGoroutineConn remembers which connection the calling goroutine works on.
+func (s *Sim) NoteGoroutineConn(conn int) {
+	if !s.Fine {
+		return
+	}
+	id := goid()
+	s.mu.Lock()
+	if s.goConn == nil {
+		s.goConn = map[int64]int{}
+	}
+	s.goConn[id] = conn
+	s.mu.Unlock()
+}
 
 // Deactivate removes s; every later hook call passes through.
 func (s *Sim) Deactivate() { cur.CompareAndSwap(s, nil) }
@@ -274,6 +445,25 @@ func (s *Sim) Park(kind, actor string, conn int, info string, enabled func() boo
 	<-p.ch
 }
 
+// parkStalled parks like Park; the scheduler does not release the goroutine before step until,
+// unless nothing else can run.
+func (s *Sim) parkStalled(kind, actor string, conn int, info string, until int) {
+	if s.teardown.Load() || s.inline.Load() {
+		return
+	}
+	p := &Parked{Kind: kind, Actor: actor, Conn: conn, ch: make(chan struct{}), Info: info, StallUntil: until}
+	s.mu.Lock()
+	if s.teardown.Load() {
+		s.mu.Unlock()
+		return
+	}
+	s.seq++
+	p.seq = s.seq
+	s.parked = append(s.parked, p)
+	s.mu.Unlock()
+	<-p.ch
+}
+
 // ParkedCount returns how many goroutines wait with the given kind on conn (-1: any).
 func (s *Sim) ParkedCount(kind string, conn int) int {
 	s.mu.Lock()
@@ -321,12 +511,9 @@ func (s *Sim) enabled() []Action {
 	ps := append([]*Parked(nil), s.parked...)
 	conns := append([]*Conn(nil), s.Conns...)
 	s.mu.Unlock()
-	for _, p := range ps {
-		if p.Enabled != nil && !p.Enabled() {
-			continue
-		}
-		p := p
-		acts = append(acts, Action{
+	var stalled []*Parked
+	release := func(p *Parked) Action {
+		return Action{
 			Key:  p.key(),
 			Desc: "rel " + p.Actor + " " + p.Kind + " c" + strconv.Itoa(p.Conn) + p.Info,
 			Do: func(int) {
@@ -340,13 +527,33 @@ func (s *Sim) enabled() []Action {
 				s.mu.Unlock()
 				close(p.ch)
 			},
-		})
+		}
+	}
+	for _, p := range ps {
+		if p.Enabled != nil && !p.Enabled() {
+			continue
+		}
+		if p.StallUntil > s.Steps {
+			stalled = append(stalled, p)
+			continue
+		}
+		acts = append(acts, release(p))
 	}
 	for _, c := range conns {
 		acts = append(acts, c.actions()...)
 	}
 	if s.Extra != nil {
 		acts = append(acts, s.Extra()...)
+	}
+	if len(acts) == 0 && len(stalled) > 0 {
+		// everything else waits for a stalled goroutine: the one that was to wake first goes on
+		first := stalled[0]
+		for _, p := range stalled[1:] {
+			if p.StallUntil < first.StallUntil || (p.StallUntil == first.StallUntil && p.seq < first.seq) {
+				first = p
+			}
+		}
+		acts = append(acts, release(first))
 	}
 	sort.SliceStable(acts, func(i, j int) bool { return acts[i].Key < acts[j].Key })
 	return acts
